@@ -24,7 +24,7 @@ func init() {
 	register(&Prop{
 		ID:       "C13",
 		Category: "model_checking",
-		Rule: "first life: a stream in {70 KB text, 300 B, a stream ending in a corrupt-input error, a truncated stream, streams cut inside a dynamic header / inside a stored block's length field / inside its payload, a 70 KB stored stream, every stream of the C03 fault catalogue read to its error, streams started through Reset(src, dict) with a 20- or 40000-byte dictionary (70 KB: the window slides over the place of the dictionary)} x read history in {nothing read, 1 byte, 10 bytes, all but the last byte, to the end/error, exactly 65535 / 65536 bytes (output window full)} x Read size {1 MiB, 7}; then Reset(second source [, dictionary]); " +
+		Rule: "first life: a stream in {70 KB text, 300 B, a stream ending in a corrupt-input error, a truncated stream, streams cut inside a dynamic header / inside a stored block's length field / inside its payload, a 70 KB stored stream, every stream of the C03 fault catalogue read to its error, streams started through Reset(src, dict) with a 20- or 40000-byte dictionary (70 KB: the window slides over the place of the dictionary)} x read history in {nothing read, 1 byte, 10 bytes, all but the last byte, to the end/error, exactly 65535 / 65536 bytes (output window full)} x Read size {1 MiB, 7}; optionally Close (the pooled-Reader pattern); then Reset(second source [, dictionary]), while the fresh reference Reader already exists (two instances alive at once); " +
 			"second life: every stream of the short corpus, malformed streams whose back-references reach 1, 2, 100 and 32768 bytes before their own start, containers of the same kind, raw streams with a preset dictionary of 20 and of 40000 bytes (only the last 32 KiB count; copies from its end, from 32000 back and from the part out of reach; malformed back-references into and beyond the dictionary) through flate's Reset(src, dict) against NewReaderDict, and for zlib every combination {first stream with/without dictionary} x {second with/without}; flate, gzip (also member stepping), zlib; second source plain, a 64-byte bufio, one byte per call, or one byte per call through a 16-byte bufio; " +
 			"first source plain, or a 64-byte or default-size *bufio.Reader owned by the caller; oracle: bytes and kind of error of the second life identical to a fresh Reader on the same input, and the first source untouched after Reset (no further Read call; the caller still reads from it exactly what was left); non-trivial = the first life decoded at least one byte",
 		Assumptions: []string{"a freshly constructed Reader is the reference model"},
@@ -268,6 +268,14 @@ func c13Harness(cfg *Cfg) func(x *mc.Exec) {
 		pol := pols[x.Choose(len(pols), "read-policy")]
 		viaBufio := x.Choose(4, "second-source")
 		fmode := x.Choose(len(c13firstNames), "first-source")
+		// the pooled-Reader pattern: Close at the end of the first life, Reset at the start of the next (explored with the
+		// plain second source and the all-at-once policy)
+		closeFirst := viaBufio == 0 && pol.Name == env.PolicyAll.Name && x.Choose(2, "close-before-reset") == 1
+		closeIt := func(r interface{}) {
+			if c, ok := r.(io.Closer); ok && closeFirst {
+				c.Close()
+			}
+		}
 		var first *c13first
 		checkFirst := func(kind, desc string) bool {
 			if msg := first.verify(); msg != "" {
@@ -297,14 +305,16 @@ func c13Harness(cfg *Cfg) func(x *mc.Exec) {
 						r.(fflate.Resetter).Reset(first.reader(), f1.dict)
 					}
 					firstRead(r, hist, 70000)
+					closeIt(r)
 					first.snapshot()
 					r.(fflate.Resetter).Reset(mkSrc(d.stream, viaBufio), d.dict)
 				}); pi != nil {
 					x.Fail("C13 panic "+pi.Site, "flate first=%s history=%s: %s", f1.name, histories[hist], pi)
 					return
 				}
+				fresh := fflate.NewReaderDict(mkSrc(d.stream, viaBufio), d.dict) // alive at the same time as the reused one
 				got := drainReader(r, pol)
-				want := drainReader(fflate.NewReaderDict(mkSrc(d.stream, viaBufio), d.dict), pol)
+				want := drainReader(fresh, pol)
 				x.Note(got.FP)
 				desc := fmt.Sprintf("flate first=%s history=%s second=%s (dictionary of %d bytes) policy=%s bufio=%d", f1.name, histories[hist], d.name, len(d.dict), pol.Name, viaBufio)
 				if !checkFirst("flate", desc) {
@@ -322,14 +332,16 @@ func c13Harness(cfg *Cfg) func(x *mc.Exec) {
 					r.(fflate.Resetter).Reset(first.reader(), f1.dict)
 				}
 				firstRead(r, hist, 70000)
+				closeIt(r)
 				first.snapshot()
 				r.(fflate.Resetter).Reset(mkSrc(s2.stream, viaBufio), nil)
 			}); pi != nil {
 				x.Fail("C13 panic "+pi.Site, "flate first=%s history=%s: %s", f1.name, histories[hist], pi)
 				return
 			}
+			fresh := fflate.NewReader(mkSrc(s2.stream, viaBufio)) // alive at the same time as the reused one
 			got := drainReader(r, pol)
-			want := drainReader(fflate.NewReader(mkSrc(s2.stream, viaBufio)), pol)
+			want := drainReader(fresh, pol)
 			x.Note(got.FP)
 			desc := fmt.Sprintf("flate first=%s history=%s second=%s policy=%s bufio=%d", f1.name, histories[hist], s2.name, pol.Name, viaBufio)
 			if !checkFirst("flate", desc) {
@@ -352,6 +364,7 @@ func c13Harness(cfg *Cfg) func(x *mc.Exec) {
 					panic(mc.HarnessError{Msg: "corpus container rejected: " + err.Error()})
 				}
 				firstRead(zr, hist, len(c1.payload))
+				closeIt(zr)
 				first.snapshot()
 				rerr = zr.Reset(mkSrc(c2.bytes, viaBufio))
 			}); pi != nil {
@@ -410,6 +423,7 @@ func c13Harness(cfg *Cfg) func(x *mc.Exec) {
 					}
 				}
 				firstRead(zr, hist, len(c1.payload))
+				closeIt(zr)
 				first.snapshot()
 				rerr = zr.(fzlib.Resetter).Reset(mkSrc(c2.bytes, viaBufio), d2)
 			}); pi != nil {
